@@ -169,12 +169,18 @@ class C15(Prop):
                 continue
             t = ta.get(d)
             ok = False
-            if t is not None and t["ms"]:
+            if t is not None and not t["ms"]:
+                ok = True  # no measure requested for this type: nothing can be returned
+            elif t is not None:
                 row = {r["name"]: r for r in t["rows"]}
-                s = row[f]["spec"][-1]
-                if s is not None:
+                r = row[f]
+                s = r["spec"][-1]
+                if not c14.Fr(r["cnt_nan"], t["n"]) < t["tnan"] or not c14.Fr(r["cnt_mode"], t["n"]) < t["tmode"]:
+                    ok = True  # fails thresh_nan / thresh_mode
+                elif s is not None:
                     better = [g for g in sel if g in row and row[g]["spec"][-1] is not None and row[g]["spec"][-1] >= s]
-                    ok = len(better) >= t["n_best"]
+                    ok = (len(better) >= t["n_best"]
+                          or any(flt["mat"][(f, g)] >= flt["thresh"] for flt in t["filters"] for g in better))
             if not ok:
                 fails.append(("copy", f"{f} (an exact copy / strictly monotone function of the target) is not "
                                       f"returned: {sel} {oa['err'] or ''}"))
@@ -205,6 +211,10 @@ class C15(Prop):
                 sig = "regression_default_distance_measure_sign"
             elif tag == "different" and reg_default and case["kind"] == "negate":
                 sig = "regression_default_distance_measure_sign"
+            elif tag == "copy" and all(
+                    len(c14.case_lists(a, type_of(a, f))[0]) >= 2 or c14.case_lists(a, type_of(a, f))[0] == ["chi2"]
+                    for f in case["must"]):
+                sig = "second_measure_never_computed"
             elif tag == "error" and case["kind"] == "copy":
                 sig = None
             sigs.append(sig)
